@@ -25,6 +25,7 @@ import (
 	"net"
 	"strings"
 	"sync"
+	"syscall"
 	"time"
 
 	"github.com/go-logr/logr"
@@ -89,6 +90,7 @@ type fBackend struct {
 	kind     string // ok | refuse | reset
 	addr     string
 	ln       net.Listener
+	fd       int // refuse: a socket that is bound but never listens
 	hsLen    int
 	accepted chan string   // remote address of every connection whose initial handling is done
 	resets   chan struct{} // shared by the backends of a case: one token per RST sent
@@ -96,15 +98,28 @@ type fBackend struct {
 }
 
 func startFBackend(kind string, hsLen int, resets chan struct{}) *fBackend {
+	if kind == "refuse" {
+		// Bound, not listening: connecting is refused and the port stays reserved. (A listener that is closed
+		// again frees its port, and the kernel may hand the same port to the next listener of the case: two
+		// "different" backends with one address.)
+		fd, err := syscall.Socket(syscall.AF_INET, syscall.SOCK_STREAM, 0)
+		if err != nil {
+			panic(err)
+		}
+		if err = syscall.Bind(fd, &syscall.SockaddrInet4{Addr: [4]byte{127, 0, 0, 1}}); err != nil {
+			panic(err)
+		}
+		sa, err := syscall.Getsockname(fd)
+		if err != nil {
+			panic(err)
+		}
+		return &fBackend{kind: kind, addr: fmt.Sprintf("127.0.0.1:%d", sa.(*syscall.SockaddrInet4).Port), fd: fd, hsLen: hsLen, accepted: make(chan string, 64), resets: resets}
+	}
 	ln, err := net.Listen("tcp", "127.0.0.1:0")
 	if err != nil {
 		panic(err)
 	}
-	b := &fBackend{kind: kind, addr: ln.Addr().String(), ln: ln, hsLen: hsLen, accepted: make(chan string, 64), resets: resets}
-	if kind == "refuse" {
-		_ = ln.Close()
-		return b
-	}
+	b := &fBackend{kind: kind, addr: ln.Addr().String(), ln: ln, fd: -1, hsLen: hsLen, accepted: make(chan string, 64), resets: resets}
 	b.wg.Add(1)
 	go func() {
 		defer b.wg.Done()
@@ -160,6 +175,8 @@ func (b *fBackend) flush() {
 func (b *fBackend) stop() {
 	if b.kind != "refuse" {
 		_ = b.ln.Close()
+	} else {
+		_ = syscall.Close(b.fd)
 	}
 	b.wg.Wait()
 }
